@@ -38,6 +38,9 @@ func TestSweep(t *testing.T) {
 									Oracle.One(t, env, rec, "sweep", &Case{T: tn, C: C, L: L, K: K, Ops: o2})
 									o3 := []Op{{Kind: "get"}, {Kind: "reslice", N: rs}, {Kind: u, N: n, V: 1}, {Kind: "put"}, {Kind: "get"}, {Kind: "get"}}
 									Oracle.One(t, env, rec, "sweep", &Case{T: tn, C: C, L: L, K: K, Ops: o3})
+									// the original header grows beyond the capacity after the reslice was taken; the reslice is put back
+									o4 := []Op{{Kind: "get"}, {Kind: "reslice", N: rs}, {Kind: "appendBig", N: n, V: 1}, {Kind: u, N: n}, {Kind: "put"}, {Kind: "get"}, {Kind: "get"}}
+									Oracle.One(t, env, rec, "sweep", &Case{T: tn, C: C, L: L, K: K, Ops: o4})
 								}
 							}
 						}
